@@ -141,15 +141,44 @@ def r183(ctx, fx):
     ctx.inst(rid, k)
     cond_ok = False
     cond_node = None
+    plain_if = False
     for n in lib.hwalk(ex.hir["body"]):
         if n.get("k") == "if":
+            if lib.strip(n["cond"]).get("k") in ("binary", "mcall", "unary") and any(lib.pm(p, "ExecuteResult::TestFailed") for _, p in lib.hir_calls(n["then"])):
+                plain_if = True
             d = lib.hdesc(n["cond"])
             r = repr(d)
             if d[0] == "Or" and "SymbolData::Number" in r and "('c', 0)" in r and "Option::is_none" in r and \
                     any(lib.pm(p, "ExecuteResult::TestFailed") for _, p in lib.hir_calls(n["then"])):
                 cond_ok = True
                 cond_node = n
-    if not cond_ok:
+    # the same as a pattern test: `matches!(r, None | Some(SymbolData::Number(0)))` / a `match` whose failing arms are exactly these two
+    recognised = cond_ok or plain_if
+    for n in lib.hwalk(ex.hir["body"]):
+        fails = None
+        if n.get("k") == "if" and lib.strip(n["cond"]).get("k") == "match" and \
+                any(lib.pm(p, "ExecuteResult::TestFailed") for _, p in lib.hir_calls(n["then"])):
+            m = lib.strip(n["cond"])
+            if all(lib.hlit(lib.strip(a["body"])) in (True, False) for a in m["arms"]):
+                fails = [a for a in m["arms"] if lib.hlit(lib.strip(a["body"])) is True]
+        elif n.get("k") == "match" and n.get("src") == "Normal" and any(
+                any(lib.pm(p, "ExecuteResult::TestFailed") for _, p in lib.hir_calls(a["body"])) for a in n["arms"]) and \
+                "Option<" in str(lib.strip(n["scrut"]).get("ty", "")):
+            fails = [a for a in n["arms"] if any(lib.pm(p, "ExecuteResult::TestFailed") for _, p in lib.hir_calls(a["body"]))]
+        if fails is None:
+            continue
+        recognised = True
+        pats = []
+        for a in fails:
+            pats += [str(v) for v in lib.pat_variants(a["pat"])] + (["guarded"] if a.get("guard") else [])
+        is_none = [v for v in pats if v.endswith("Option::None")]
+        is_zero = [v for v in pats if "Option::Some(" in v and "SymbolData::Number(" in v and "('lit', 0)" in v]
+        if is_none and is_zero and len(pats) == len(is_none) + len(is_zero):
+            cond_ok = True
+            cond_node = n
+    if not cond_ok and not recognised:
+        ctx.fail_closed(rid, "the test that makes an assertion fail (a condition or pattern over the evaluated value in front of ExecuteResult::TestFailed) was not found")
+    elif not cond_ok:
         ctx.finding(rid, k, "an assertion must fail the test exactly when it evaluates to 0 or cannot be evaluated", ex.where)
     k = "%s|success-at-brk" % ex.path
     ctx.inst(rid, k)
